@@ -77,6 +77,9 @@ FilterNonEmpty(s) ==
   IF s = <<>> THEN <<>>
   ELSE IF s[1] = <<>> THEN FilterNonEmpty(Tail(s)) ELSE <<s[1]>> \o FilterNonEmpty(Tail(s))
 
+RECURSIVE SetToSeq(_)
+SetToSeq(S) == IF S = {} THEN <<>> ELSE LET x == CHOOSE y \in S : TRUE IN <<x>> \o SetToSeq(S \ {x})
+
 RECURSIVE Reverse(_)
 Reverse(s) == IF s = <<>> THEN <<>> ELSE Reverse(Tail(s)) \o <<s[1]>>
 =============================================================================
